@@ -625,7 +625,7 @@ Proof.
       eapply Same; [|exact Heq]. repeat split; cbn; auto; lia.
     + assert (Hm := step_mono_inv nd (ORpc (map (fun x => (x, true)) (slice src (sd_buf sd) (sd_next sd)))) c Hn).
       assert (HRb := recv_rpc_batch c src K nd (sd_buf sd) (sd_next sd) Hwf HR HbK HKl Hnl).
-      destruct f; [| |apply (Same sd Keep Heq)]; inversion Heq; subst; clear Heq;
+      destruct f; [| |apply (Same sd Keep Heq)]; injection Heq as <- <-;
         (exists (Nat.max K (sd_next sd)); split; [lia|]; split; [exact HRb|]; split; [|exact Hm];
          repeat split; cbn; try lia; eapply ss_le_trans; eauto).
   - (* ELearnerSnapshot: only with the buffer drained *)
@@ -713,10 +713,10 @@ Qed.
 Definition loose_src : list sentry := [mkS 1 1 1 1001 10; mkS 1 1 2 1002 20; mkS 1 1 3 1003 30].
 Definition loose_evs : list ev :=
   [EFeed true; ESend true FNone; EFeed true; ESend true FReqLost; ELearnerSnapshot true; ELearnerRestart true;
-   EFeed true; ESend true FNone].
+   EFeed true; EFeed true; EFeed true; ESend true FNone].
 
 Lemma learner_snapshot_with_backlog_refuted :
   r_journal (n_cur (fst (sys_run_loose 1 loose_src loose_evs))) = [(1, 10); (1, 30)] /\
   synced_of (n_cur (fst (sys_run_loose 1 loose_src loose_evs))) 1 = Some (mkSS 1 3 1003) /\
-  r_journal (n_cur (fst (sys_run 1 loose_src loose_evs))) = [(1, 10); (1, 20)].
+  r_journal (n_cur (fst (sys_run 1 loose_src loose_evs))) = [(1, 10); (1, 20); (1, 30)].
 Proof. vm_compute. repeat split; reflexivity. Qed.
